@@ -410,6 +410,7 @@ theorem exCfg_ok : SpecOK exCfg.sp where
   capLe := fun _ L => by
     show 2 ^ L * 2 ≤ 2 ^ L * 4
     exact Nat.mul_le_mul_left _ (by decide)
+  capMono := capacityOf_mono _ (fun _ _ h => by cases h)
 /-- … so the three-generation state satisfies the invariant of C01 / C11 and its books are its table -/
 example : Consistent exCfg id (run exCfg id (Sys.init exCfg) exOps).a :=
   (C03_hash_books_are_table exCfg id exCfg_ok exOps (by
